@@ -38,7 +38,7 @@ ASSUMPTIONS = [
     "attrs compared with array equality (netCDF returns 1-element arrays as scalars and lists as arrays)",
     "variable names are disjoint from dimension names; appended variables reuse the file's labels on shared dimensions",
 ]
-MANDATORY = ["json", "json:str-values", "json:0d", "nc:dataset-write", "nc:append-a", "nc:append-a+", "nc:open_nc-set", "nc:attr-write", "nc:NETCDF3",
+MANDATORY = ["json", "json:str-values", "json:0d", "nc:dataset-write", "nc:dataset-append", "nc:append-a", "nc:append-a+", "nc:open_nc-set", "nc:attr-write", "nc:NETCDF3",
              "nc:str-labels", "nc:str-values", "nc:nan", "nc:int32", "nc:0d", "nc:attrs-3-levels", "nc:unsorted-labels", "nc:dims-differ"]
 
 
@@ -100,7 +100,8 @@ def nc_case(draw):
     used = 0
     nsteps = draw(st.integers(1, 6))
     for si in range(nsteps):
-        kinds = ["ds_write", "da_write_w"] if si == 0 else ["ds_write", "da_write_a", "da_write_a", "da_write_a+", "open_set", "open_set", "attr", "da_write_w"]
+        kinds = ["ds_write", "da_write_w"] if si == 0 else ["ds_write", "da_write_a", "da_write_a", "da_write_a+", "open_set", "open_set", "attr", "da_write_w",
+                                                              "ds_append", "ds_append"]
         kind = draw(st.sampled_from(kinds))
         if kind == "ds_write":
             dimlabels = collections.OrderedDict()
@@ -121,6 +122,19 @@ def nc_case(draw):
                 dimlabels.setdefault(d, l)
             used = 1
             steps.append({"k": kind, "var": v, "format": fmt})
+        elif kind == "ds_append":
+            # Dataset.write_nc(mode='a' | 'a+') on the existing file: what is there stays, the new variables are added
+            nv = draw(st.integers(1, 2))
+            if used + nv > len(names):
+                continue
+            vs = []
+            for j in range(nv):
+                v = draw(nc_variable(dimlabels, numeric, names[used + j]))
+                for d, l in zip(v[1]["dims"], v[1]["labels"]):
+                    dimlabels.setdefault(d, l)
+                vs.append(v)
+            used += nv
+            steps.append({"k": kind, "vars": vs, "attrs": draw(st.dictionaries(attr_names, nc_attr, max_size=1)), "wmode": draw(st.sampled_from(["a", "a+"]))})
         elif kind in ("da_write_a", "da_write_a+", "open_set"):
             if used >= len(names):
                 continue
@@ -284,6 +298,23 @@ def run_nc(case):
                 m.attrs = dict(step["attrs"])
                 m.axattrs = {d: dict(at) for d, at in step["axattrs"].items() if d in ds.dims}
                 cl.add("nc:dataset-write")
+            elif k == "ds_append":
+                ds = da.Dataset()
+                arrs = []
+                for name, spec in step["vars"]:
+                    arr = build_var(spec)
+                    ds[name] = arr
+                    arrs.append((name, spec, arr))
+                ds.attrs.update(_copy.deepcopy(step["attrs"]))
+                snap = core.snapshot_dataset(ds)
+                what += " Dataset(%s).write_nc(mode=%r)" % (core.jsonable([[n, s_["dims"], s_["labels"], s_["vk"]] for n, s_ in step["vars"]]), step["wmode"])
+                lib(lambda: ds.write_nc(path, mode=step["wmode"]), what=what, sig=sig)
+                check(core.snapshot_dataset(ds) == snap, "in-memory-dataset-changed-by-writing", {"what": what}, sig)
+                for name, spec, arr in arrs:
+                    m.add(name, spec, arr)
+                m.attrs.update(dict(step["attrs"]))
+                cl.add("nc:dataset-append")
+                nontrivial = True
             elif k in ("da_write_w", "da_write_a", "da_write_a+", "open_set"):
                 name, spec = step["var"]
                 arr = build_var(spec)
